@@ -84,10 +84,9 @@ def worker(payload):
                     o8["nontrivial"] += 1
             if {"o": e["o"], "t": e["t"]} != {"o": mb["o"], "t": mb["t"]}:
                 wit = {"kind": "graph", "world": w.desc, "scenario": {**sc, "ops": sc["ops"][: j + 1]}, "op_index": j, "impl": {"o": mb["o"], "t": mb["t"]}, "expected": {"o": e["o"], "t": e["t"]}}
-                key = "D14:add_mixins-after-use" if addmix_after_use else "D13:ancestor-modified-after-descendant-built"
-                known(o16, key, wit)
+                o16["viol"].append({"law": "a function in use does not behave like the overlay of its ancestors' and its own current definitions", **wit})
                 if any(bodies.get(t[0]) == "recurse" for t in e["t"] + mb["t"]):
-                    known(orc("C08"), key, wit)
+                    orc("C08")["viol"].append({"law": "recurse did not re-enter the function that was called (behaviour differs from a fresh function over the overlay)", **wit})
             used.add(op[1])
         if len(out["samples"]) < 1 and im:
             out["samples"].append({"ops": sc["ops"][:6], "last": {k: v for k, v in im[-1].items() if k in ("o", "t")}})
